@@ -515,7 +515,19 @@ class JoinVal:
 
 
 def stat_fn(I, fn, seq):
-    raise Unsupported("statistics.%s on symbolic data" % fn)
+    """statistics.median/mean/stdev... of a list of KNOWN length with symbolic values: an uninterpreted
+    function of the values in order (A6); abstract lists are not supported"""
+    items = I.try_iter_concrete(seq)
+    if items is None:
+        raise Unsupported("statistics.%s of an abstract list" % fn)
+    if not items:
+        from .values import STATS_ERR
+        I.raise_exc(STATS_ERR, "no data")
+    if all(isinstance(x, (int, Fraction)) and not isinstance(x, bool) for x in items):
+        import statistics
+        return Fraction(getattr(statistics, fn)([Fraction(x) for x in items]))
+    f = z3.Function("stat.%s.%d" % (fn, len(items)), *([REAL] * len(items) + [REAL]))
+    return f(*[as_real(x) for x in items])
 
 
 # ----------------------------------------------------------------------- structural equality (proof rule)
